@@ -108,8 +108,14 @@ Theorem C13_list_query_agree :
 Proof. exact (@list_query_agree_multiple). Qed.
 
 (* ... many-to-many, every ordering (an ordering that names `id` sorts by the
-   other class's id in both flavours). *)
-Theorem C13_list_query_agree_related :
+   other class's id in both flavours).  Full statement: for every join and every
+   ordering.  It fails for the self-referential query join when a key is written
+   as an expression (VP.q.k0, DESC(VP.q.k0)): the statement selects the other
+   class under an alias and the key keeps the real table name ("no such
+   column"), while the list flavour sorts as asked: _refuted.  The _partial
+   excludes exactly that class (sqlrel_order_ok: not (self-referential and some
+   expression key)); on orderings written as names it is the earlier statement. *)
+Definition C13_list_query_agree_related_full : Prop :=
   forall (ops : list op) (j : rjoin) (o : order) (inst : Z),
     order_ok o = true ->
     live (j_owner j) inst (run ops) = true ->
@@ -120,7 +126,25 @@ Theorem C13_list_query_agree_related :
                 ((forall x y, In x cands -> In y cands ->
                               lex_le rval (order_keys o) x y = true ->
                               lex_le rval (order_keys o) y x = true -> x = y) -> q = l).
+Theorem C13_list_query_agree_related_partial :
+  forall (ops : list op) (j : rjoin) (o : order) (inst : Z),
+    order_ok o = true ->
+    sqlrel_order_ok j o = true ->
+    live (j_owner j) inst (run ops) = true ->
+    exists l cands,
+      related_join j o (run ops) inst = JOk l /\ sql_related j o (run ops) inst = JOk cands /\
+      forall q, sql_rows (order_keys o) cands q ->
+                Permutation l q /\
+                ((forall x y, In x cands -> In y cands ->
+                              lex_le rval (order_keys o) x y = true ->
+                              lex_le rval (order_keys o) y x = true -> x = y) -> q = l).
 Proof. exact (@list_query_agree_related). Qed.
+Theorem C13_list_query_agree_related_refuted : ~ C13_list_query_agree_related_full.
+Proof. exact (@list_query_agree_related_refuted). Qed.
+(* the guard lets every ordering written with names through, on every join *)
+Theorem C13_names_always_ok :
+  forall (j : rjoin) (o : order), has_expr o = false -> sqlrel_order_ok j o = true.
+Proof. exact (@names_always_ok). Qed.
 
 (* Invariants over all histories: link rows only mention live objects (destroy
    cleans both columns, also of the table declared on the other class only);
@@ -168,6 +192,182 @@ Theorem C13_destroy_keeps_fk :
   forall (i : Z) (s : state) (b : row), In b (tB (destroy CA i s)) <-> In b (tB s).
 Proof. exact (@destroy_keeps_fk). Qed.
 
+
+(* ------------------------------------------------------------------ *)
+(* Orderings: stability, the exact order, how keys are written           *)
+(* ------------------------------------------------------------------ *)
+(* doSort is stable: elements that tie on ALL keys keep the order they had in
+   the input (for every tie class: the class of any x). *)
+Theorem C13_stable :
+  forall (A : Type) (val : col -> A -> option Z) (ks : list skey) (l : list A),
+    ks <> [] ->
+    exists l', doSort val (S (length ks)) ks l = Some l' /\
+               forall x, filter (lex_eq val ks x) l' = filter (lex_eq val ks x) l.
+Proof. exact (@doSort_stable). Qed.
+
+(* sorted + stable determines the result: any arrangement that is sorted by the
+   keys and keeps the input order inside every tie class IS doSort's result *)
+Theorem C13_sort_determined :
+  forall (A : Type) (val : col -> A -> option Z) (ks : list skey) (l l2 : list A),
+    ks <> [] ->
+    StronglySorted (fun x y => lex_le val ks x y = true) l2 ->
+    (forall x, filter (lex_eq val ks x) l2 = filter (lex_eq val ks x) l) ->
+    doSort val (S (length ks)) ks l = Some l2.
+Proof. exact (@doSort_determined). Qed.
+
+(* MultipleJoin: the result is the stable lexicographic sort of the referencing
+   rows in table (id) order -- ties come in ascending id -- and nothing else is. *)
+Theorem C13_one_to_many_order :
+  forall (ops : list op) (o : order) (a : Z),
+    order_ok o = true ->
+    let cands := filter (fk_is a) (tB (run ops)) in
+    exists l, multiple_join o (run ops) a = JOk l /\
+              stable_wrt rval (order_keys o) cands l /\
+              forall l2, StronglySorted (fun x y => lex_le rval (order_keys o) x y = true) l2 ->
+                         stable_wrt rval (order_keys o) cands l2 -> l2 = l.
+Proof. exact (@multiple_join_stable). Qed.
+
+(* RelatedJoin: the rows are fetched one per link row in link-table (rowid)
+   order, then sorted stably: ties come in the order the links were added. *)
+Theorem C13_many_to_many_order :
+  forall (ops : list op) (j : rjoin) (o : order) (inst : Z),
+    order_ok o = true ->
+    exists rows l,
+      ids rows = related_ids j (run ops) inst /\ incl rows (tab (j_other j) (run ops)) /\
+      related_join j o (run ops) inst = JOk l /\
+      stable_wrt rval (order_keys o) rows l /\
+      forall l2, StronglySorted (fun x y => lex_le rval (order_keys o) x y = true) l2 ->
+                 stable_wrt rval (order_keys o) rows l2 -> l2 = l.
+Proof. exact (@related_join_stable). Qed.
+
+(* '-k0' or DESC(Cls.q.k0), 'k1' or Cls.q.k1: two orderings that name the same
+   columns and directions give the same list-join results in every state and
+   accept the same database answers. *)
+Theorem C13_key_forms :
+  forall (o o' : order) (s : state),
+    same_order o o' ->
+    (forall a, multiple_join o s a = multiple_join o' s a) /\
+    (forall j inst, related_join j o s inst = related_join j o' s inst) /\
+    (forall cands q, sql_rows (order_keys o) cands q <-> sql_rows (order_keys o') cands q).
+Proof. exact (@list_join_forms). Qed.
+
+(* a join declared without orderBy is the join ordered by the other class's
+   sqlmeta.defaultOrder d (a name, or a list of names): every theorem above
+   applies with o := effective d JDefault = d *)
+Theorem C13_default_order :
+  forall (ops : list op) (d : order) (a : Z),
+    order_ok d = true ->
+    exists l, multiple_join (effective d JDefault) (run ops) a = JOk l /\
+              (forall b, In b l <-> In b (tB (run ops)) /\ r_fk b = Some a) /\
+              StronglySorted (fun x y => lex_le rval (order_keys d) x y = true) l.
+Proof. exact (@default_order_multiple). Qed.
+
+(* SingleJoin when class B has a defaultOrder d: the select is ordered by d and
+   its first row is taken -- any r the database may give (single_first) is None
+   exactly when nothing references a, references a and is minimal under d, and is
+   the referencing row when there is just one.  Without a defaultOrder
+   single_join is such an r. *)
+Theorem C13_single_default :
+  forall (ops : list op) (d : order) (a : Z) (r : option row),
+    let s := run ops in
+    single_first d s a r ->
+    (r = None <-> forall b, In b (tB s) -> r_fk b <> Some a) /\
+    (forall b, r = Some b -> In b (tB s) /\ r_fk b = Some a /\
+               forall b', In b' (tB s) -> r_fk b' = Some a -> lex_le rval (order_keys d) b b' = true) /\
+    (forall b, In b (tB s) -> r_fk b = Some a ->
+               (forall b', In b' (tB s) -> r_fk b' = Some a -> b' = b) -> r = Some b).
+Proof. exact (@single_default). Qed.
+Theorem C13_single_unordered :
+  forall (ops : list op) (a : Z), single_first ONone (run ops) a (single_join (run ops) a).
+Proof. exact (@single_first_none). Qed.
+
+(* ------------------------------------------------------------------ *)
+(* ManyToMany / OneToMany descriptors                                   *)
+(* ------------------------------------------------------------------ *)
+(* The rows a ManyToMany accessor selects (one per link row of the owner) are,
+   after any history -- MAdd/MRemove/MCreate included --, a permutation of what
+   the RelatedJoin over the same table returns: rows of the other class, each as
+   often as there are link rows (inst, row); and whatever the database answers
+   for ORDER BY <keys> over them is a permutation of the RelatedJoin's result
+   under that ordering, equal to it when no two rows tie. *)
+Theorem C13_m2m_mirrors :
+  forall (ops : list op) (j : rjoin) (o : order) (inst : Z),
+    order_ok o = true ->
+    let cands := m2m_cands j (run ops) inst in
+    exists l, related_join j o (run ops) inst = JOk l /\
+              Permutation cands l /\ incl cands (tab (j_other j) (run ops)) /\
+              (forall x, count_occ Z.eq_dec (ids cands) x =
+                         count_occ pair_dec (link (j_link j) (run ops)) (mkpair j inst x)) /\
+              forall q, sql_rows (order_keys o) cands q ->
+                        Permutation l q /\
+                        ((forall x y, In x cands -> In y cands ->
+                                      lex_le rval (order_keys o) x y = true ->
+                                      lex_le rval (order_keys o) y x = true -> x = y) -> q = l).
+Proof. exact (@m2m_as_related). Qed.
+
+Theorem C13_m2m_symmetric :
+  forall (ops : list op) (j : rjoin) (a b : Z),
+    count_occ Z.eq_dec (ids (m2m_cands j (run ops) a)) b =
+    count_occ Z.eq_dec (ids (m2m_cands (mirror j) (run ops) b)) a.
+Proof. exact (@m2m_symmetric). Qed.
+
+(* .count() -- the number of selected rows -- is the number of link rows of the owner *)
+Theorem C13_m2m_count :
+  forall (ops : list op) (j : rjoin) (inst : Z),
+    length (m2m_cands j (run ops) inst) =
+    length (filter (fun r => col_of (j_side j) r =? inst) (link (j_link j) (run ops))).
+Proof. exact (@m2m_count). Qed.
+
+(* OneToMany: the selected rows are exactly the rows of B whose foreign key is
+   the owner, each once; any database answer is a permutation of the
+   MultipleJoin's result under the same ordering, equal when total. *)
+Theorem C13_o2m_mirrors :
+  forall (ops : list op) (o : order) (a : Z),
+    order_ok o = true ->
+    let cands := o2m_cands (run ops) a in
+    (forall b, In b cands <-> In b (tB (run ops)) /\ r_fk b = Some a) /\ NoDup cands /\
+    exists l, multiple_join o (run ops) a = JOk l /\
+              forall q, sql_rows (order_keys o) cands q ->
+                        Permutation l q /\
+                        ((forall x y, In x cands -> In y cands ->
+                                      lex_le rval (order_keys o) x y = true ->
+                                      lex_le rval (order_keys o) y x = true -> x = y) -> q = l).
+Proof. exact (@o2m_as_multiple). Qed.
+
+(* the wrapper's add / remove are the RelatedJoin's (so C13_add_effect,
+   C13_remove_effect, C13_add_either_side ... apply); create is a Create of the
+   other class followed by that add *)
+Theorem C13_m2m_add_same :
+  forall (s : state) (j : rjoin) (x y : Z), step s (MAdd j x y) = step s (Add j x y).
+Proof. exact (@m2m_add_same). Qed.
+Theorem C13_m2m_remove_same :
+  forall (s : state) (j : rjoin) (x y : Z), step s (MRemove j x y) = step s (Remove j x y).
+Proof. exact (@m2m_remove_same). Qed.
+Theorem C13_m2m_create :
+  forall (s : state) (j : rjoin) (x : Z) (k0 k1 k2 : option Z),
+    op_status s (MCreate j x k0 k1 k2) = SOk ->
+    step s (MCreate j x k0 k1 k2) =
+    step (step s (Create (j_other j) None k0 k1 k2 FkNone)) (Add j x (seqno (j_other j) s + 1)).
+Proof. exact (@m2m_create_steps). Qed.
+
+(* OneToMany .create(...) (since /repo 80b2179): after any history, for a live
+   owner a, it is the Create of a B whose foreign key is a -- a row that was not
+   there, gets the next AUTOINCREMENT id, references a, and is among the rows the
+   OneToMany accessor of a then selects. *)
+Theorem C13_o2m_create :
+  forall (ops : list op) (a : Z) (k0 k1 k2 : option Z),
+    let s := run ops in
+    live CA a s = true ->
+    exists b, In b (tB (step s (OCreate a k0 k1 k2))) /\ ~ In b (tB s) /\ r_fk b = Some a /\
+              r_id b = nB s + 1 /\
+              In b (o2m_cands (step s (OCreate a k0 k1 k2)) a).
+Proof. exact (@o2m_create). Qed.
+Theorem C13_o2m_create_same :
+  forall (s : state) (a : Z) (k0 k1 k2 : option Z),
+    live CA a s = true ->
+    step s (OCreate a k0 k1 k2) = step s (Create CB None k0 k1 k2 (FkId a)).
+Proof. exact (@o2m_create_same). Qed.
+
 (* the executable acceptance test the correspondence applies to the rows a
    query-flavoured join returned implies the specification used above *)
 Theorem C13_checker_sound :
@@ -180,8 +380,10 @@ Proof. exact (@sql_rows_b_sound). Qed.
 (* ------------------------------------------------------------------ *)
 (* non-vacuity: a concrete history, what the accessors give there       *)
 (* ------------------------------------------------------------------ *)
-Definition ka (c : col) := {| k_col := c; k_desc := false |}.
-Definition kd (c : col) := {| k_col := c; k_desc := true |}.
+Definition ka (c : col) := {| k_col := c; k_desc := false; k_form := FName |}.
+Definition kd (c : col) := {| k_col := c; k_desc := true; k_form := FName |}.
+Definition qa (c : col) := {| k_col := c; k_desc := false; k_form := FExpr |}.   (* Cls.q.c *)
+Definition qd (c : col) := {| k_col := c; k_desc := true; k_form := FExpr |}.    (* DESC(Cls.q.c) *)
 Definition ex_ops : list op := [
   Create CA None (Some 1) None None FkNone;                 (* a1 *)
   Create CB None (Some 2) (Some 1) None (FkObj 1);          (* b1 -> a1 *)
@@ -229,6 +431,8 @@ Example C13_example_single :
   (option_map r_id (single_join (run ex_ops) 1), single_join (run ex_ops) 2, single_join (run ex_ops) 7)
   = (Some 1, option_map (fun r => r) (get_row (tB (run ex_ops)) 2), None).
 Proof. vm_compute. reflexivity. Qed.
+Example C13_o2m_create_nonvacuous : live CA 1 (run ex_ops) = true.
+Proof. vm_compute. reflexivity. Qed.
 Example C13_live_nonvacuous : live (j_owner jA_rbs) 1 (run ex_ops) = true.
 Proof. vm_compute. reflexivity. Qed.
 (* ordering by '-id' in the query flavour: the candidates are there, and the
@@ -255,6 +459,42 @@ Example C13_empty_order_diverges :
   multiple_join (OList []) (run ex_ops) 1 = JDiverge.
 Proof. vm_compute. reflexivity. Qed.
 
+(* the same ordering written with expressions: same_order holds, the list join
+   gives the same, the self-referential query join refuses *)
+Definition o2q : order := OList [qa (CK K0); qd (CK K1)].
+Example C13_same_order_nonvacuous : same_order o2 o2q.
+Proof. repeat constructor. Qed.
+Example C13_example_self_expr :
+  let o := OList [qd (CK K0); qa CId] in
+  (order_ok o, sqlrel_order_ok jP_of o, live (j_owner jP_of) 1 (run ex_ops),
+   option_map ids (match related_join jP_of o (run ex_ops) 1 with JOk l => Some l | _ => None end),
+   match sql_related jP_of o (run ex_ops) 1 with JDbError => true | _ => false end)
+  = (true, false, true, Some [1; 3], true).
+Proof. vm_compute. reflexivity. Qed.
+(* stability seen: b1 and b5 ... tie on k0 under [k0]; ties keep ascending id *)
+Example C13_example_stable :
+  option_map ids (match multiple_join (OList [ka (CK K0)]) (run ex_ops) 1 with JOk l => Some l | _ => None end)
+  = Some [3; 4; 5; 1].
+Proof. vm_compute. reflexivity. Qed.
+(* ManyToMany / OneToMany on the example history extended by the new ops *)
+Definition ex_ops2 : list op :=
+  ex_ops ++ [MAdd jA_rbs 1 5; MAdd jB_ras 5 1; MCreate jA_rbs 1 (Some 9) None None; MRemove jB_ras 3 1;
+             OCreate 1 None None None].
+Example C13_example_m2m :
+  (ids (m2m_cands jA_rbs (run ex_ops2) 1), ids (m2m_cands jB_ras (run ex_ops2) 5),
+   ids (m2m_cands jB_ras (run ex_ops2) 6), lAB (run ex_ops2), ids (o2m_cands (run ex_ops2) 1),
+   op_status (run ex_ops2) (OCreate 1 None None None), op_status (run ex_ops) (MCreate jA_rbs 1 (Some 9) None None))
+  = ([1; 5; 5; 6], [1; 1], [1], [(1, 1); (1, 5); (1, 5); (1, 6)], [1; 3; 4; 5; 7], SOk, SOk).
+Proof. vm_compute. reflexivity. Qed.
+Example C13_single_first_nonvacuous :
+  exists r, single_first (OList [kd (CK K1)]) (run ex_ops) 1 (Some r) /\ r_id r = 5.
+Proof.
+  destruct (get_row (tB (run ex_ops)) 5) as [r|] eqn:E; [|vm_compute in E; discriminate].
+  exists r. vm_compute in E. inversion E; subst r. split; [|reflexivity].
+  split; [vm_compute; tauto|]. intros y Hy. vm_compute in Hy.
+  repeat (destruct Hy as [<-|Hy]; [vm_compute; reflexivity|]). contradiction.
+Qed.
+
 Print Assumptions C13_sorted.
 Print Assumptions C13_one_to_many.
 Print Assumptions C13_many_to_many.
@@ -262,7 +502,26 @@ Print Assumptions C13_many_to_many_members.
 Print Assumptions C13_symmetric.
 Print Assumptions C13_single.
 Print Assumptions C13_list_query_agree.
-Print Assumptions C13_list_query_agree_related.
+Print Assumptions C13_list_query_agree_related_partial.
+Print Assumptions C13_list_query_agree_related_refuted.
+Print Assumptions C13_names_always_ok.
+Print Assumptions C13_stable.
+Print Assumptions C13_sort_determined.
+Print Assumptions C13_one_to_many_order.
+Print Assumptions C13_many_to_many_order.
+Print Assumptions C13_key_forms.
+Print Assumptions C13_default_order.
+Print Assumptions C13_single_default.
+Print Assumptions C13_single_unordered.
+Print Assumptions C13_m2m_mirrors.
+Print Assumptions C13_m2m_symmetric.
+Print Assumptions C13_m2m_count.
+Print Assumptions C13_o2m_mirrors.
+Print Assumptions C13_m2m_add_same.
+Print Assumptions C13_m2m_remove_same.
+Print Assumptions C13_m2m_create.
+Print Assumptions C13_o2m_create.
+Print Assumptions C13_o2m_create_same.
 Print Assumptions C13_links_live.
 Print Assumptions C13_ids_unique.
 Print Assumptions C13_add_either_side.
